@@ -48,6 +48,22 @@ def gen_cases_for(seed_, n):
             keys = rng.sample(["alpha", "beta", "gamma", "delta"], 3)
             samples = [{k: v} for k, v in zip(keys, parts)]
             opts["merge"] = rng.choice([[["percent", 0.7], ["number", 10]], [["exact"]], [["percent", 0.5]], [["number", 2]]])
+        if i % 20 == 3:
+            # nested models under different keys that form one merge group and disagree about one string field: long free text,
+            # short literal, pseudo-typed, null, absent - required in one model, optional in another; the sample order decides
+            # which model is registered (and merged) first
+            pool = ["x" * 25, "another long string value!", "short", "tiny", "12", "2.5", "true", None, "MISSING", "2018-01-02"]
+            vals = [rng.choice(pool) for _ in range(5)]
+
+            def obj(v, j):
+                o = {"name": "n", "x": j, "y": 2}
+                if v != "MISSING":
+                    o["note"] = v
+                return o
+            parts = [obj(vals[0], 0), [obj(vals[1], 1), obj(vals[2], 2)], obj(vals[3], 3), [obj(vals[4], 4)]]
+            keys = rng.sample(["sender", "recipient", "owner", "agent", "courier"], rng.choice([2, 3, 4]))
+            samples = [{k: v} for k, v in zip(keys, parts)]
+            opts["merge"] = rng.choice([[["percent", 0.7], ["number", 10]], [["exact"]], [["percent", 0.5]], [["number", 2]]])
         cases.append({"i": i, "models": [["Root", samples]], "opts": opts, "vseed": rng.randrange(1 << 30)})
     return cases
 
